@@ -178,8 +178,12 @@ def extract(repo=REPO, config="default", use_cache=True, verbose=False):
             json.dump(merged, fh)
         os.replace(tmp, cpath)
         # keep the cache small
-        olds = sorted((os.path.getmtime(os.path.join(CACHE, f)), f) for f in os.listdir(CACHE)
-                      if f.startswith("facts-"))
+        def mtime(f):
+            try:
+                return os.path.getmtime(os.path.join(CACHE, f))
+            except OSError:      # pruned by a concurrent run between listdir and stat
+                return 0
+        olds = sorted((mtime(f), f) for f in os.listdir(CACHE) if f.startswith("facts-") and f.endswith(".json"))
         for _, f in olds[:-16]:
             try:
                 os.remove(os.path.join(CACHE, f))
